@@ -5,6 +5,7 @@
 //!   bgpfu-dst determinism <ID> [n]           execute n seeds twice, print a digest
 //!   bgpfu-dst worker ...                     (internal)
 
+mod asim;
 mod core;
 mod doc;
 mod driver;
